@@ -66,7 +66,7 @@ pub fn gen_reqs(r: &mut Rng) -> (Reqs, bool) {
         v
     };
     let mut cond_pool: Vec<&str> = EXTRA_HEADER_NAMES.to_vec();
-    cond_pool.extend_from_slice(&["content-type", "x-amz-date", "x-amz-security-token", "date"]);
+    cond_pool.extend_from_slice(&["content-type", "x-amz-date", "x-amz-security-token", "date", "content-length", "content-length"]);
     // (now and then an always-required name is one of the headers the verifier itself consults)
     let always = if r.chance(1, 8) {
         pick_names(r, &cond_pool, 2)
@@ -97,11 +97,13 @@ fn shard(seed: u64, shard: u64, n: u64) -> Tally {
     for i in 0..n {
         let mut r = Rng::keyed(seed, "C05", "reqs", shard, i);
         let (reqs, mixed) = gen_reqs(&mut r);
+        // every option combination, form bodies included: a folded form loses its body, not its headers — a required
+        // Content-Length / Content-Type / Content-* header is still required
         let cfg = Cfg {
             region: "us-east-1".into(),
             service: "service".into(),
-            s3: false,
-            fold: false,
+            s3: r.chance(1, 4),
+            fold: r.chance(1, 2),
             reqs,
             now: Inst {
                 s: 0,
@@ -110,7 +112,6 @@ fn shard(seed: u64, shard: u64, n: u64) -> Tally {
         };
         let o = GenOpts {
             max_extra_headers: 6,
-            allow_form: false,
             ..Default::default()
         };
         let mut cfg = cfg;
